@@ -25,6 +25,10 @@ type ReadOptions struct {
 
 	StartNanos uint64
 	EndNanos   uint64
+
+	// endUnbounded is set by Reader.Messages when no upper time bound has been requested, so
+	// that a message whose log time is the maximum uint64 value is still in range.
+	endUnbounded bool
 }
 
 func (ro *ReadOptions) Finalize() {
@@ -84,6 +88,7 @@ func BeforeNanos(end uint64) ReadOpt {
 			return fmt.Errorf("end cannot come before start")
 		}
 		ro.EndNanos = end
+		ro.endUnbounded = false
 		return nil
 	}
 }
